@@ -181,11 +181,11 @@ theorem C16_error_surfaced_call [Inhabited α] (r : ZCReader α) (b : Nat) (n : 
     simp only at h
     subst h
     refine ⟨?_, ?_, ?_, ?_, ?_⟩
-    · simp only [ZCReader.step, hw]
-    · simp only [ZCReader.step, hw]
-    · simp only [ZCReader.step, hw]
-    · simp only [ZCReader.step, hw]
-    · intro h1; subst h1; simp only [ZCReader.step, hw]
+    · simp only [ZCReader.step, waitReadLoop_eq, hw]
+    · simp only [ZCReader.step, waitReadLoop_eq, hw]
+    · simp only [ZCReader.step, waitReadLoop_eq, hw]
+    · simp only [ZCReader.step, waitReadLoop_eq, hw]
+    · intro h1; subst h1; simp only [ZCReader.step, waitReadLoop_eq, hw]
 
 /-- non-vacuity: `Next(6)` over reads of 3, 0, then 2 bytes *together with* io.EOF: the call fails with ErrEOF,
 nothing was delivered, all 5 bytes (including the 2 that came with the EOF) are readable; `Next(2)` on a full-enough
@@ -213,6 +213,38 @@ example :
     let r₀ := ({ src := { stream := fun i => i, script := [(1, .none), (0, .none), (0, .none), (1, .none)] } } : ZCReader Nat)
     (r₀.waitRead 4 (fuelOf r₀) 2).2 = none ∧ (r₀.waitRead 4 (fuelOf r₀) 2).1.q.len = 2 ∧
     (r₀.waitRead 4 3 2).1.q.len = 1 := by   -- 3 rounds are not enough here, 5 = fuelOf are
+  decide
+
+/-! ## 4b. the cycle bound of `fill` is invisible: `waitRead` re-arms it -/
+
+/-- `waitRead` as the code writes it - `for buf.Len() < n { err = fill(n); … }` around a `fill` that makes at most
+`cycle` source reads per call - returns exactly what the flat loop of sections 3 and 4 returns, for every cycle bound
+`≥ 1`, every state, every request and every script (so also for scripts with more consecutive tiny / zero-byte reads
+than one `fill` makes): a request is never failed, and never answered short, because `fill` gave up. -/
+theorem C16_cycle_bound_invisible [Inhabited α] (r : ZCReader α) (b cycle : Nat) (hc : 1 ≤ cycle) (n : Int)
+    (fuel : Nat) (hf : fuelOf r ≤ fuel) :
+    r.waitReadLoop b cycle fuel n = r.waitRead b (fuelOf r) n :=
+  waitReadLoop_eq_of_fuel b cycle hc n fuel r hf
+
+/-- … in particular with the bound the code has (`Gen.c_maxReadCycle` is regenerated from `maxReadCycle`), which is
+what the reader calls of the model (`ZCReader.step`) run. -/
+theorem C16_waitRead_as_written [Inhabited α] (r : ZCReader α) (b : Nat) (n : Int) :
+    r.waitReadLoop b Netpoll.Gen.c_maxReadCycle (fuelOf r) n = r.waitRead b (fuelOf r) n ∧
+    r.step b (.next n) = (match r.waitRead b (fuelOf r) n with
+      | (r1, some e) => (r1, .fail e)
+      | (r1, none) => r1.bufOp (.next n) true) :=
+  ⟨waitReadLoop_eq b r n, by rw [ZCReader.step, waitReadLoop_eq]; rfl⟩
+
+/-- non-vacuity, and why the outer loop is needed: a source delivering one byte per read and a request of
+`maxReadCycle + 1` bytes. One `fill` returns nil with only `maxReadCycle` bytes buffered (a `waitRead` that called it
+once would let `Next` fail with the buffer's own error although the source never erred); the loop buffers them all. -/
+example :
+    let r₀ := ({ src := { stream := fun i => i, script := List.replicate 20 (1, .none) } } : ZCReader Nat)
+    Netpoll.Gen.c_maxReadCycle = 16 ∧
+    (r₀.fill 2 Netpoll.Gen.c_maxReadCycle 17).2 = none ∧ (r₀.fill 2 Netpoll.Gen.c_maxReadCycle 17).1.q.len = 16 ∧
+    (r₀.waitReadLoop 2 Netpoll.Gen.c_maxReadCycle (fuelOf r₀) 17).2 = none ∧
+    (r₀.waitReadLoop 2 Netpoll.Gen.c_maxReadCycle (fuelOf r₀) 17).1.q.len = 17 ∧
+    (r₀.step 2 (.next 17)).2 = .ok (.bytes (List.range 17)) := by
   decide
 
 /-! ## 5. writer -/
